@@ -170,6 +170,9 @@ def add_query_argument(url, name, value=None, quote=True):
 
 
 def unsplit_netloc(username, password, hostname, port):
+    if hostname is None:
+        hostname = ""
+
     if username and password:
         auth = username + ":" + password
     elif username:
